@@ -304,6 +304,31 @@ class Monitor:
 # ---------------------------------------------------------------------------------------------
 # Ready-made monitors
 # ---------------------------------------------------------------------------------------------
+def cond_cases(e, truth, depth=0):
+    """DNF of `e == truth` over its atoms: a list of cases, each a list of (atom expr, truth)."""
+    x = strip(e)
+    k = x.get("k")
+    if depth > 6:
+        return [[(e, truth)]]
+
+    def prod(a, b):
+        return [p + q for p in a for q in b]
+    if k == "cond":
+        c, t, f = x["c"], x["t"], x["e"]
+        return prod(cond_cases(c, True, depth + 1), cond_cases(t, truth, depth + 1)) + prod(cond_cases(c, False, depth + 1), cond_cases(f, truth, depth + 1))
+    if k == "bin" and x.get("op") == "&&":
+        if truth:
+            return prod(cond_cases(x["l"], True, depth + 1), cond_cases(x["r"], True, depth + 1))
+        return cond_cases(x["l"], False, depth + 1) + prod(cond_cases(x["l"], True, depth + 1), cond_cases(x["r"], False, depth + 1))
+    if k == "bin" and x.get("op") == "||":
+        if truth:
+            return cond_cases(x["l"], True, depth + 1) + prod(cond_cases(x["l"], False, depth + 1), cond_cases(x["r"], True, depth + 1))
+        return prod(cond_cases(x["l"], False, depth + 1), cond_cases(x["r"], False, depth + 1))
+    if k == "un" and x.get("op") == "!":
+        return cond_cases(x["e"], not truth, depth + 1)
+    return [[(e, truth)]]
+
+
 class GateMonitor(Monitor):
     """Every path to an accept point must have taken an edge establishing one of the alternatives
     (pattern, want) since the last redefinition of that alternative's operands.
@@ -356,6 +381,24 @@ class GateMonitor(Monitor):
             for i, (p, w, kill) in enumerate(self.alts):
                 if s.m.cond_matches(p, w, cond, truth):
                     return i + 1
+            if strip(cond).get("k") == "cond":
+                # a conditional expression used as a branch condition: Clang does not split it into blocks.
+                # Expand it into its cases; the gate is established if every case establishes an alternative.
+                cs = cond_cases(cond, truth)
+                first = None
+                if cs and len(cs) <= 16:
+                    for case in cs:
+                        hit = None
+                        for i, (p, w, kill) in enumerate(self.alts):
+                            if any(s.m.cond_matches(p, w, ex, tr) for ex, tr in case):
+                                hit = i + 1
+                                break
+                        if hit is None:
+                            first = None
+                            break
+                        first = first or hit
+                    if first:
+                        return first
         if self.accept_edge is not None and not m and self.accept_edge(bid, edge):
             return Viol("accept edge %s taken without %s being %s" % (edge.label_str(), self.pred_str(), self.want), (bid, len(s.fn.blocks[bid].elems) - 1))
         return m
